@@ -41,6 +41,12 @@ type NamedResult struct {
 
 const logicPrelude = "(set-option :produce-models true)\n"
 
+// strAxioms: the abstract string measures are non-negative and bounded (assumption: no
+// string is longer than 2^40 bytes; display width is at most twice the byte length).
+const strAxioms = `(assert (forall ((s Str)) (! (and (>= (dw s) 0) (<= (dw s) (* 2 (slen s)))) :pattern ((dw s)))))
+(assert (forall ((s Str)) (! (and (>= (slen s) 0) (<= (slen s) 1099511627776)) :pattern ((slen s)))))
+`
+
 func obligationScript(ob *Obligation, wantModel bool) string {
 	used := map[string]bool{}
 	var walk func(t *Term)
@@ -62,6 +68,20 @@ func obligationScript(ob *Obligation, wantModel bool) string {
 	}
 	walk(ob.Goal)
 	as := append([]*Term{}, strLitFacts(used)...)
+	// function constants are non-nil and pairwise distinct
+	var fns []*Term
+	for v := range used {
+		if strings.HasPrefix(v, "fn!") {
+			fns = append(fns, Var(v, SInt))
+		}
+	}
+	sort.Slice(fns, func(i, j int) bool { return fns[i].Val < fns[j].Val })
+	for i, f := range fns {
+		as = append(as, Lt(f, Zero)) // negative: never equal to an allocated reference
+		for _, g := range fns[i+1:] {
+			as = append(as, Neq(f, g))
+		}
+	}
 	as = append(as, ob.Assume...)
 	if ob.Kind == "cover" || ob.Kind == "reach" {
 		return theU.Script(logicPrelude, as, nil, false)
@@ -172,7 +192,7 @@ func loadKnownFindings(path string) []KnownFinding {
 // contractLevel: obligation kinds recorded in the ledger (their disappearance is a failure).
 func contractLevel(kind string) bool {
 	switch kind {
-	case "ensures", "inv", "variant", "frame", "lemma", "chaninv", "stable", "cover", "static", "typeinv", "reach":
+	case "ensures", "inv", "variant", "frame", "lemma", "chaninv", "stable", "cover", "static", "typeinv", "reach", "loopframe":
 		return true
 	}
 	return false
@@ -485,6 +505,21 @@ func RunCheck(opt Options) int {
 				status = "FAIL(" + nr.Failed[0].Result.Status + ")"
 			}
 			fmt.Printf("  %-8s %s  [%d inst, %.2fs] %s\n", status, n, nr.Instances, nr.TimeS, nr.Pos)
+			if len(nr.Failed) > 0 && nr.Failed[0].Goal.Op == "and" {
+				// which conjuncts fail?
+				f := nr.Failed[0]
+				for ci, cj := range f.Goal.Args {
+					sub := &Obligation{Name: f.Name, Kind: f.Kind, Assume: f.Assume, Goal: cj}
+					r := Solve(obligationScript(sub, false), filepath.Join(outDir, "split"), timeout, order)
+					if r.Status != "unsat" {
+						k := cj.Key()
+						if len(k) > 220 {
+							k = k[:220] + "…"
+						}
+						fmt.Printf("           conjunct %d not proved (%s): %s\n", ci+1, r.Status, k)
+					}
+				}
+			}
 		}
 		for _, rep := range reports {
 			if len(rep.Unsupported) > 0 || len(rep.SpecErrors) > 0 {
